@@ -8,6 +8,7 @@ import SvgVerif.Model.InvArc
 import SvgVerif.Model.Parser
 import SvgVerif.Model.Lexer
 import SvgVerif.Model.Serializer
+import SvgVerif.Model.BBox
 /-! Correspondence driver: one operation per input line, one canonical result per
 output line.  Run as `lake env lean --run Driver.lean < ops.txt`.  The Python
 harness feeds the same operations to the real svgpathtools code and diffs. -/
@@ -242,6 +243,17 @@ def runDToks (ws : List String) : String :=
     | none => "bad-args"
   | _ => "bad-args"
 
+/-! C08 -/
+/-- exact square root of a rational that is a perfect square (the correspondence inputs are
+constructed that way); 0 otherwise -/
+def ratSqrt (q : Rat) : Rat :=
+  if q < 0 then 0 else
+    let n := q.num.toNat
+    let d := q.den
+    let rn := Nat.sqrt n
+    let rd := Nat.sqrt d
+    if rn * rn = n ∧ rd * rd = d then (rn : Rat) / (rd : Rat) else 0
+
 def handle (cmd : String) (args : List String) : String :=
   match cmd with
   | "polyroots01" =>
@@ -328,6 +340,23 @@ def handle (cmd : String) (args : List String) : String :=
       let res := if cmd == "tst" then PathOps.weld segs tr else PathOps.weldOpen segs tr
       let starts := PathOps.rot1 (res.map (·.1))
       " ".intercalate ((res.zip starts).map fun (s, nx) => if s.2 = nx then "1" else "0")
+    | none => "bad-args"
+  | "minmax" =>
+    match parseRats? args with
+    | some [a0, a1, a2, a3] =>
+      match BBox.cubicMinmax ratSqrt a0 a1 a2 a3 with
+      | some (lo, hi) => s!"{showRat lo} {showRat hi}"
+      | none => "none"
+    | _ => "bad-args"
+  | "pathbbox" =>
+    match parseRats? args with
+    | some xs =>
+      let rec quads : List Rat → List (Rat × Rat × Rat × Rat)
+        | a :: b :: c :: d :: r => (a, b, c, d) :: quads r
+        | _ => []
+      match BBox.pathBbox (quads xs) with
+      | some (a, b, c, d) => s!"{showRat a} {showRat b} {showRat c} {showRat d}"
+      | none => "none"
     | none => "bad-args"
   | "dtoks" => runDToks args
   | "parse" => runParse false args
